@@ -226,27 +226,37 @@ def public(it):
 
 
 # ------------------------------------------------------------------ payload layouts
+MAX_RUNS = 400          # per section: keeps events small and TLC's recursion shallow
+
+
 def gen_image_lines(r, L, bt, size, sizes="mix"):
-    """contiguous image 0..size-1 from tag type bt on, as a list of single lines (ty, offs, len) in address order"""
-    out, a = [], 0
+    """contiguous image 0..size-1 from tag type bt on, as a list of single lines (ty, offs, len) in address order.
+    Lines come in stretches of equal length (they become one symbolic run); no line crosses a 64 KiB page."""
+    out, a, nruns = [], 0, 0
     uni = r.randrange(1, 251)
     while a < size:
-        page, offs = divmod(a, 0x10000)
-        if sizes == "uniform":
-            ln = uni
+        if sizes == "uniform" or nruns >= MAX_RUNS:
+            ln, rep = (uni if sizes == "uniform" else 250), 1 << 30
         elif sizes == "big":
-            ln = r.choice([250, 250, 249, 128, 200])
+            ln, rep = r.choice([250, 250, 249, 128, 200, r.randrange(100, 251)]), r.choice([1, 3, 40, 200, 400])
         elif sizes == "small":
-            ln = r.choice([1, 1, 2, 3, 3, 4, 5])
+            ln, rep = r.choice([1, 1, 2, 3, 3, 4, 5]), r.choice([1, 1, 2, 5, 30])
         else:
             ln = r.choice([1, 2, 3, 4, 16, 32, 64, 100, 128, 200, 249, 250, r.randrange(1, 251)])
-        ln = min(ln, size - a, 0x10000 - offs)
-        if not L.plan(ln):
-            ln = min(3, size - a, 0x10000 - offs)
-            if ln < 3:                                  # cannot place a unique short line any more: stop the image here
-                break
-        out.append((bt + page, offs, ln))
-        a += ln
+            rep = r.choice([1, 1, 1, 2, 3, 10, 60])
+        nruns += 1
+        while rep > 0 and a < size:
+            page, offs = divmod(a, 0x10000)
+            l2 = min(ln, size - a, 0x10000 - offs)
+            if not L.plan(l2):
+                l2 = min(3, size - a, 0x10000 - offs)
+                if l2 < 3:                               # no unique short line left: the image ends here
+                    return out
+            if l2 != ln:
+                nruns += 1
+            out.append((bt + page, offs, l2))
+            a += l2
+            rep -= 1
     return out
 
 
@@ -266,9 +276,9 @@ def damage(r, lines, kind):
         drop = set(r.sample(range(1, n), min(n - 1, r.choice([2, 2, 3, 4]))))
         rest = [l for i, l in enumerate(lines) if i not in drop]
         return rest
-    if kind == "two-single-blocks":                      # A, gap, B, gap, C...
-        keep = [l for i, l in enumerate(lines) if i % 2 == 0]
-        return keep
+    if kind == "two-single-blocks":                      # A, gap, B, gap, C... (on a stretch of at most 60 lines)
+        k = r.randrange(0, max(1, n - 60))
+        return lines[:k] + [l for i, l in enumerate(lines[k:k + 60]) if i % 2 == 0] + lines[k + 60:]
     if kind == "swap":                                   # out of order (sorting of blocks)
         k = r.randrange(1, n)
         return lines[k:] + lines[:k] if lines[k][0] == lines[0][0] else lines
@@ -382,7 +392,7 @@ def gen_crc(r):
 
 
 # ------------------------------------------------------------------ whole files
-def gen_file(r, tier="quick", big=None):
+def gen_file(r, tier="quick", big=None, small=False):
     """one BF2 layout: returns (items, Lines, enforce).  Sections are delimited the way the importer recognises
     them: by REBOOT, by a CHECK_FWVER while one is pending, by the next base-type group (then without instructions
     in between), or by the end of the file."""
@@ -398,7 +408,7 @@ def gen_file(r, tier="quick", big=None):
     if r.random() < 0.4:
         items.append(cmt("Date", "2019-05-17"))
     r.shuffle(items)
-    nsec = r.choice([1, 1, 2, 2, 3, 3, 4, 5])
+    nsec = r.choice([1, 1, 2, 2, 3, 3, 4, 5]) if not small else r.choice([1, 1, 2, 3])
     prev_reboot, prev_pending, prev_ign = True, False, False
     for k in range(nsec):
         roll = r.random()
@@ -447,7 +457,9 @@ def gen_file(r, tier="quick", big=None):
         else:
             size = r.choice([1, 2, 3, 7, 40, 250, 251, 600, 3000]) if r.random() < 0.8 else r.randrange(1, 9000)
             sizes = r.choice(["mix", "mix", "uniform", "small", "big"])
-            if PAGES.get(bt, 1) > 1 and r.random() < 0.12:
+            if small:
+                size, sizes = r.choice([1, 2, 3, 7, 20, 45]), r.choice(["small", "small", "mix"])
+            elif PAGES.get(bt, 1) > 1 and r.random() < 0.12:
                 size = 0x10000 + r.choice([-300, -1, 0, 1, 2, 251, 900])
                 sizes = r.choice(["big", "mix"])
         lines = gen_image_lines(r, L, bt + (1 if nonbase else 0), size, sizes)
@@ -476,6 +488,26 @@ def exc_fields(e):
     return {"kind": "raise", "cls": type(e).__name__, "mro": [k.__name__ for k in type(e).__mro__]}
 
 
+def why(e):
+    """coarse reading of a rejection, for statistics only (never a verdict)"""
+    c, m = type(e).__name__, str(e)
+    if c == "UnsupportedLegacyFirmwareError":
+        return "legacy-without-bf3update"
+    if c == "UnsupportedTagTypeError":
+        return "unsupported-tagtype"
+    if c == "KeyError":
+        return "loader-without-interface"
+    if c == "IndexError":
+        return "emit-without-data"
+    if c == "UnicodeDecodeError":
+        return "bgm-version-not-text"
+    for pre, w in (("TagType", "unknown-tagtype"), ("Invalid BF2 Instruction", "invalid-instruction"), ("Invalid PlatformID2", "invalid-pfid2"),
+                   ("BLOB tagtype", "blob-gap-or-nonzero-start"), ("Invalid PFID2 Filter", "invalid-filter-header")):
+        if m.startswith(pre):
+            return w
+    return ""
+
+
 def run_import(items, L, enforce, r, tid):
     extra = r.choice([0, 0, 1])
     pr = Bf2Text(L, r, extra)
@@ -483,11 +515,12 @@ def run_import(items, L, enforce, r, tid):
         pr.add(it)
     text = pr.text()
     ev = {"tid": tid, "op": "import", "items": [public(it) for it in items], "enforce": 1 if enforce else 0,
-          "kind": "ok", "cls": "", "mro": [], "comps": [], "comments": [], "bad": 0, "_text": text}
+          "kind": "ok", "cls": "", "mro": [], "why": "", "comps": [], "comments": [], "bad": 0, "_text": text}
     try:
         f = Bf3File.bf2_import(io.StringIO(text)) if enforce else Bf3File.bf2_import(io.StringIO(text), False)
     except Exception as e:                                  # noqa: BLE001 -- the class is part of the record
         ev.update(exc_fields(e))
+        ev["why"] = why(e)
         return ev
     for c in f.components:
         fmt = c.description.get(0xC1)
@@ -558,3 +591,50 @@ def gen_direct(r, big=None):
     lines = gen_image_lines(r, L, bt, size, sizes)
     lines = damage(r, lines, r.choice(["none", "nz", "gap-before-last", "gap-mid", "gaps", "gaps", "two-single-blocks", "swap"]))
     return L, to_runs(L, lines)
+
+
+# ------------------------------------------------------------------ character level: parse_bf2_file on small texts
+def print_text(items, L, r):
+    pr = Bf2Text(L, r, r.choice([0, 0, 1]))
+    for it in items:
+        pr.add(it)
+    return pr.text()
+
+
+def mutate_text(r, text):
+    """one or two character-level changes (ASCII): the reader must parse the result the way the grammar says or fail"""
+    t = list(text)
+    for _ in range(r.choice([1, 1, 2])):
+        if not t:
+            break
+        k = r.randrange(len(t))
+        op = r.random()
+        ch = r.choice(list("0123456789ABCDEFabcdefgXZ :,-./=#>*\t\r\n _"))
+        if op < 0.4:
+            t[k] = ch
+        elif op < 0.65:
+            t.insert(k, ch)
+        elif op < 0.9:
+            del t[k]
+        else:
+            del t[k:k + r.randrange(1, 12)]
+    return "".join(t)
+
+
+def run_parse(text, tid):
+    ev = {"tid": tid, "op": "parse", "text": chars(text), "kind": "ok", "cls": "", "mro": [], "objs": [], "_text": text,
+          "_cost": 1 + len(text) // 400}
+    try:
+        objs = list(Bf3File.parse_bf2_file(io.StringIO(text)))
+    except Exception as e:                                  # noqa: BLE001
+        ev.update(exc_fields(e))
+        return ev
+    for name, params in objs:
+        if name == "load":
+            ev["objs"].append({"k": "load", "name": [], "val": [], "params": [],
+                               "lines": [[int(l.fwtagtype), int(l.fwtagndx), list(l.fwtag), list(l.rawdata)] for l in params]})
+        elif isinstance(params, dict):
+            ev["objs"].append({"k": "ins", "name": chars(name), "val": [], "params": [[chars(k), chars(v)] for k, v in params.items()], "lines": []})
+        else:
+            ev["objs"].append({"k": "cmt", "name": chars(name), "val": chars(params), "params": [], "lines": []})
+    return ev
